@@ -75,7 +75,7 @@ Definition word_columns (nmin nmax : nat) (fitted : vmap * list string) (docs : 
   map (fun jw => (snd jw, dense_column (fst jw) rows))
       (combine (seq 0 (List.length (snd fitted))) (snd fitted)).
 
-Fixpoint col_of (w : string) (wc : list (string * list nat)) : option (list nat) :=
+Fixpoint col_of {V} (w : string) (wc : list (string * V)) : option V :=
   match wc with
   | [] => None
   | (k, c) :: r => if String.eqb k w then Some c else col_of w r
@@ -84,6 +84,32 @@ Fixpoint col_of (w : string) (wc : list (string * list nat)) : option (list nat)
 (* what every fit must produce for word w: its number of occurrences among the n-grams of each document *)
 Definition ref_column (nmin nmax : nat) (docs : list (list string)) (w : string) : list nat :=
   map (fun d => occ w (ngrams nmin nmax d)) docs.
+
+(** the tf-idf vectoriser: `TfIdfVectorizer::fit` is the count vectoriser's fit, `transform` scales the
+    stored counts by idf(method, number of transformed documents, number of them containing the entry).
+    A stored entry is `Some value`, a structural zero of the sparse matrix is `None`. *)
+Section TfIdfColumns.
+Context {F : Type} (o : NumOps F) (lnf : F -> F).
+
+Fixpoint sp_get (j : nat) (row : list (nat * F)) : option F :=
+  match row with
+  | [] => None
+  | (i, v) :: r => if Nat.eqb i j then Some v else sp_get j r
+  end.
+
+Definition tfidf_word_columns (mt : method) (nmin nmax : nat) (fitted : vmap * list string)
+    (docs : list (list string)) : list (string * list (option F)) :=
+  let rows := tfidf_rows o lnf mt nmin nmax (fst fitted) docs in
+  map (fun jw => (snd jw, map (sp_get (fst jw)) rows))
+      (combine (seq 0 (List.length (snd fitted))) (snd fitted)).
+
+Definition ref_tfidf_column (mt : method) (nmin nmax : nat) (docs : list (list string)) (w : string)
+  : list (option F) :=
+  map (fun d => let c := occ w (ngrams nmin nmax d) in
+                if (0 <? c)%nat
+                then Some (mul o (ofn o c) (idf o lnf mt (List.length docs) (df_ref w (map (ngrams nmin nmax) docs))))
+                else None) docs.
+End TfIdfColumns.
 
 (** contrast (the kind of shortcut the permutation quantifier excludes): the max_features cut taken
     with a *stable* sort on the document frequency alone - entries of equal frequency stay in
